@@ -6,16 +6,22 @@ documented 'Fails' shape planted at every applicable site is rejected with that 
 import vlib
 from vlib import hexs
 import gen_sem
+import scope_corr
 
 NEED_BIN = False
 MANIFEST_ENTRY = {
     "technique": "Coq proof of the three declaration-local rules (duplicate scans = NoDup for all name lists, subrange rule = "
-                 "comparison of the mathematical bounds for all magnitudes) and of 'a failing declaration is never accepted' for "
+                 "comparison of the mathematical bounds for all magnitudes), of the scope-stack walk of the declared-variable rule (exact, "
+                 "unit-local) and of 'a failing declaration is never accepted' for "
                  "table-shaped rules; rule/transform lists regenerated from stages.rs; exhaustive single-fault and sampled "
                  "double-fault planting over valid-by-construction programs against an independent oracle",
     "text": "Proved for all inputs: P0003/P0005 are reported exactly when element / value names are not pairwise distinct (order-"
             "independently); P0004 exactly when minimum >= maximum as integers of any magnitude and sign; a declaration failing a "
-            "table-shaped rule makes the verdict false wherever it stands. The other eight rules (declared variables, enumeration "
+            "table-shaped rule makes the verdict false wherever it stands; P0015 (declared variables): the symbol-table walk accepts a "
+            "library exactly when every unit uses only its own name and names declared in that unit before the use, case-"
+            "insensitively, and with one faulty unit reports that unit's first undeclared use (model of symbol_table.rs + the rule's "
+            "visitor, compared with the rule itself on the resolved library of every generated unit through the `verif` feature "
+            "hook). The other seven rules (enumeration "
             "values, types, function-block invocations, task references, CONSTANT rules, external constants) are NOT proved: they "
             "are decided by planting each documented fault at every site of generated valid programs (both directions: valid units "
             "must be accepted with no code, each single fault must be rejected with its code). The rule models are compared with the "
@@ -28,7 +34,8 @@ TRUSTED = [
     "Coq 8.16.1 kernel; vm_compute only in the Example",
     "no axioms: every theorem of Properties/C02.v is closed under the global context",
     "tools/translate.py: ordered transform and rule lists of stages.rs and the way results are combined",
-    "tools/gen_sem.py is the oracle for the eight rules that are searched, not proved",
+    "tools/gen_sem.py is the oracle for the seven rules that are searched, not proved",
+    "harness op `events` (the traversal of the resolved library that emits enter / exit / add / use events; uses the `verif` feature hook of ironplc-analyzer)",
     "harness op `analyze` (parse_program + stages::analyze)",
 ]
 ASSUMPTIONS = ["the generator's fragment avoids constructs the analyzer answers with P9999 (outside the property by its text)"]
@@ -117,6 +124,10 @@ def search(run, info):
         elif ca not in c and cb not in c:
             run.violation("impl-violates-property", "unit violating rules %s and %s is %s" % (ca, cb, "accepted" if not c else "rejected with %r only" % c),
                           {"input": {"text": gen_sem.render(mu)}, "expect": ca})
+    # the symbol-table walk of rule_use_declared_symbolic_var against its Coq model, on every unit generated above
+    sc_sets = [[("u.st", gen_sem.render(u))] for u in units] + [[("u.st", gen_sem.render(m[2]))] for m in singles] + \
+              [[("u.st", gen_sem.render(m[2]))] for m in doubles]
+    sc_n, sc_bad = scope_corr.check(run, sc_sets, info, "c02")
     # correspondence of the proved rule models with the implementation
     mcases = []
     mlines = []
@@ -170,6 +181,7 @@ def search(run, info):
         "single_faults_per_code": percode,
         "valid_units": len(units),
         "double_faults": len(doubles),
+        "scope_walks_compared_with_model": sc_n,
         "exhaustive": False}}
 
 
